@@ -55,7 +55,7 @@ func zipContains(raw, sig []byte, msoCheck bool) bool {
 	if !b.advance(0x1E) {
 		return false
 	}
-	if bytes.HasPrefix(b, sig) {
+	if zipNameHasPrefix(raw, b, sig) {
 		return true
 	}
 
@@ -89,7 +89,7 @@ func zipContains(raw, sig []byte, msoCheck bool) bool {
 	if !b.advance(nextHeader) {
 		return false
 	}
-	if bytes.HasPrefix(b, sig) {
+	if zipNameHasPrefix(raw, b, sig) {
 		return true
 	}
 
@@ -104,11 +104,27 @@ func zipContains(raw, sig []byte, msoCheck bool) bool {
 		if !b.advance(nextHeader + 0x1E) {
 			return false
 		}
-		if bytes.HasPrefix(b, sig) {
+		if zipNameHasPrefix(raw, b, sig) {
 			return true
 		}
 	}
 	return false
+}
+
+// zipNameHasPrefix reports if the file name b is positioned at starts with sig.
+// b must be the remainder of raw starting at the file name of a local file
+// header. The comparison does not run past the name (its length is stored 4
+// bytes before it) into the extra field or the file content.
+func zipNameHasPrefix(raw []byte, b readBuf, sig []byte) bool {
+	nameOffset := len(raw) - len(b)
+	if nameOffset < 4 {
+		return false
+	}
+	nameLen := int(binary.LittleEndian.Uint16(raw[nameOffset-4:]))
+	if nameLen > len(b) {
+		nameLen = len(b)
+	}
+	return bytes.HasPrefix(b[:nameLen], sig)
 }
 
 // APK matches an Android Package Archive.
